@@ -1,8 +1,9 @@
 (* The symbol tables of the abstract scoping model (Model/Scoping.v: root_table, method_table -- the
    tables the C10 / C11 theorems talk about) ARE the tables AstAnnotator builds from the real
    syntax tree (Model/Annot.v), for every tree of the regular shape (header, then uses / constants /
-   types / fields, then methods; nothing declared below a non-method declaration, only parameters
-   and locals below a method); for ALL trees: every symbol is the symbol of a visited declaration
+   types / fields, then methods; no node that inserts a symbol below a non-method declaration, only
+   the method's parameters and locals below a method -- the parameters of procedure / function TYPES
+   insert nothing since the repair c14b1c2 and may occur anywhere); for ALL trees: every symbol is the symbol of a visited declaration
    node, its selection range is the range of that node's name token, and nothing is dropped or invented. *)
 From GoldV Require Import Base Tokens Lexer AstKinds Tree SymTab SymTabProofs Scoping ScopingProofs Annot
                           RangeBase RangeRel RangeTop.
@@ -12,21 +13,25 @@ From Coq Require Import Permutation Lia.
 (* vocabulary                                                                             *)
 (* ====================================================================================== *)
 
-Definition below (c : node) : list node := post_list (nchildren c).
-Definition silent (n : node) : Prop := dkind_of n = None.
-Definition quiet (c : node) : Prop := Forall silent (below c).
+(* a child of the root as it is visited: no grandparent *)
+Definition top (n : node) : vnode := (false, n).
+Definition dk (n : node) : option dkind := dkind_at (top n).
+Definition silent (p : vnode) : Prop := dkind_at p = None.
+Definition silent_top (n : node) : Prop := silent (top n).
+(* nothing is inserted below the child c of t *)
+Definition quiet (t c : node) : Prop := Forall silent (below t c).
 
 Definition is_header (n : node) : bool :=
-  match dkind_of n with Some DClass | Some DModule => true | _ => false end.
+  match dk n with Some DClass | Some DModule => true | _ => false end.
 Definition is_member (n : node) : bool :=
-  match dkind_of n with Some DConst | Some DType | Some DField | Some DProc | Some DFunc => true | _ => false end.
+  match dk n with Some DConst | Some DType | Some DField | Some DProc | Some DFunc => true | _ => false end.
 Definition is_method (n : node) : bool :=
-  match dkind_of n with Some DProc | Some DFunc => true | _ => false end.
+  match dk n with Some DProc | Some DFunc => true | _ => false end.
 Definition is_uses (n : node) : bool :=
-  match dkind_of n with Some DUses => true | _ => false end.
-Definition var_like (n : node) : bool :=
-  match dkind_of n with Some DParam | Some DVar => true | _ => false end.
-Definition var_or_silent (n : node) : Prop := dkind_of n = None \/ var_like n = true.
+  match dk n with Some DUses => true | _ => false end.
+Definition var_like (p : vnode) : bool :=
+  match dkind_at p with Some DParam | Some DVar => true | _ => false end.
+Definition var_or_silent (p : vnode) : Prop := dkind_at p = None \/ var_like p = true.
 
 (* SymbolType of the symbol a declaration node inserts *)
 Definition member_kind (n : node) : skind :=
@@ -37,31 +42,36 @@ Definition member_kind (n : node) : skind :=
 Definition decl_sym (n : node) : asym := sym_of (member_kind n) n.
 
 (* the symbols one visit inserts *)
-Definition decl_syms (n : node) : list asym :=
-  match dkind_of n with
-  | Some DClass => [decl_sym n; self_of n]
+Definition decl_syms (p : vnode) : list asym :=
+  match dkind_at p with
+  | Some DClass => [decl_sym (snd p); self_of (snd p)]
   | Some DUses | None => []
-  | Some _ => [decl_sym n]
+  | Some _ => [decl_sym (snd p)]
   end.
 
-Definition var_syms (l : list node) : list asym := map decl_sym (filter var_like l).
+Definition vsym (p : vnode) : asym := decl_sym (snd p).
+Definition var_syms (l : list vnode) : list asym := map vsym (filter var_like l).
 
 (* the regular shape *)
-Definition pre_ok (c : node) : Prop := silent c /\ quiet c.
-Definition mid_ok (c : node) : Prop :=
-  (silent c \/ is_uses c = true \/ (is_member c = true /\ is_method c = false)) /\ quiet c.
-Definition rest_ok (c : node) : Prop :=
-  (silent c /\ quiet c) \/ (is_method c = true /\ Forall var_or_silent (below c)).
+Definition pre_ok (t c : node) : Prop := silent_top c /\ quiet t c.
+Definition mid_ok (t c : node) : Prop :=
+  (silent_top c \/ is_uses c = true \/ (is_member c = true /\ is_method c = false)) /\ quiet t c.
+Definition rest_ok (t c : node) : Prop :=
+  (silent_top c /\ quiet t c) \/ (is_method c = true /\ Forall var_or_silent (below t c)).
 
 Definition regular (t : node) : Prop :=
-  silent t /\
+  silent_top t /\
   exists pre h mid rest,
     nchildren t = pre ++ h :: mid ++ rest /\
-    Forall pre_ok pre /\ is_header h = true /\ quiet h /\ Forall mid_ok mid /\ Forall rest_ok rest.
+    Forall (pre_ok t) pre /\ is_header h = true /\ quiet t h /\ Forall (mid_ok t) mid /\ Forall (rest_ok t) rest.
 
 (* ====================================================================================== *)
 (* generic facts                                                                          *)
 (* ====================================================================================== *)
+
+Ltac dk_cases c :=
+  unfold is_header, is_member, is_method, is_uses, silent_top, silent, dk, top, dkind_at in *; cbn [fst snd] in *;
+  destruct (dkind_of c) as [[]|].
 
 Lemma visit_silent st n : silent n -> visit st n = st.
 Proof. unfold silent, visit. intros ->. reflexivity. Qed.
@@ -94,10 +104,11 @@ Proof.
     + rewrite visit_silent by exact Hn. rewrite (IH (mkSt R (Some c) D) c Hl eq_refl). cbn [st_root st_done].
       assert (Hv : var_like n = false) by (unfold var_like; rewrite Hn; reflexivity).
       unfold var_syms. cbn [filter]. rewrite Hv. reflexivity.
-    + assert (Hv : visit (mkSt R (Some c) D) n = mkSt R (Some (t_insert c (decl_sym n))) D).
-      { unfold var_like in Hn. unfold visit, decl_sym, member_kind.
-        destruct (dkind_of n) as [[]|]; try discriminate; reflexivity. }
-      rewrite Hv. rewrite (IH (mkSt R (Some (t_insert c (decl_sym n))) D) (t_insert c (decl_sym n)) Hl eq_refl). cbn [st_root st_done t_insert t_cls t_syms t_uses].
+    + assert (Hv : visit (mkSt R (Some c) D) n = mkSt R (Some (t_insert c (vsym n))) D).
+      { unfold var_like in Hn. unfold visit, vsym, decl_sym, member_kind. destruct n as [g n].
+        unfold dkind_at in *. cbn [fst snd] in *.
+        destruct (dkind_of n) as [[]|]; try discriminate; try reflexivity; destruct g; try discriminate; reflexivity. }
+      rewrite Hv. rewrite (IH (mkSt R (Some (t_insert c (vsym n))) D) (t_insert c (vsym n)) Hl eq_refl). cbn [st_root st_done t_insert t_cls t_syms t_uses].
       unfold var_syms. cbn [filter]. rewrite Hn. cbn [map]. rewrite <- app_assoc. reflexivity.
 Qed.
 
@@ -109,10 +120,10 @@ Proof. intro H. apply (fold_vars l (mkSt R (Some c) D) c H eq_refl). Qed.
 (* the three phases of a regular document                                                 *)
 (* ====================================================================================== *)
 
-Lemma top_quiet st c : quiet c -> fold_left visit (top_seq false c) st = visit st c.
+Lemma top_quiet st t c : quiet t c -> fold_left visit (top_seq false t c) st = visit st (top c).
 Proof. intro H. unfold top_seq. cbn [fold_left]. apply fold_silent. exact H. Qed.
 
-Lemma phase_pre l : forall st, Forall pre_ok l -> fold_left visit (flat_map (top_seq false) l) st = st.
+Lemma phase_pre t l : forall st, Forall (pre_ok t) l -> fold_left visit (flat_map (top_seq false t) l) st = st.
 Proof.
   induction l as [|c l IH]; intros st H; [reflexivity|]. inversion H as [|? ? [Hs Hq] Hl]; subst.
   rewrite flat_map_cons, fold_left_app, top_quiet by exact Hq. rewrite visit_silent by exact Hs. apply IH. exact Hl.
@@ -122,19 +133,19 @@ Definition opt_sym (c : node) : list asym := if is_member c then [decl_sym c] el
 Definition opt_uses (c : node) : list str := if is_uses c then uses_names c else [].
 
 Lemma visit_mid R D c :
-  silent c \/ is_uses c = true \/ (is_member c = true /\ is_method c = false) ->
-  visit (mkSt R None D) c =
+  silent_top c \/ is_uses c = true \/ (is_member c = true /\ is_method c = false) ->
+  visit (mkSt R None D) (top c) =
   mkSt (mkTable (t_cls R) (t_syms R ++ opt_sym c) (t_uses R ++ opt_uses c)) None D.
 Proof.
-  unfold silent, is_uses, is_member, is_method, opt_sym, opt_uses, is_uses, is_member, visit, decl_sym, member_kind.
+  unfold opt_sym, opt_uses, visit, decl_sym, member_kind.
   intro H. destruct R as [rc rs ru].
-  destruct (dkind_of c) as [[]|]; cbn [cur_insert cur_add_uses st_cur st_root st_done t_insert t_add_uses t_cls t_syms t_uses];
+  dk_cases c; cbn [cur_insert cur_add_uses st_cur st_root st_done t_insert t_add_uses t_cls t_syms t_uses];
     rewrite ?app_nil_r; try reflexivity;
     exfalso; destruct H as [H|[H|[H1 H2]]]; discriminate.
 Qed.
 
-Lemma phase_mid l : forall R D, Forall mid_ok l ->
-  fold_left visit (flat_map (top_seq false) l) (mkSt R None D) =
+Lemma phase_mid t l : forall R D, Forall (mid_ok t) l ->
+  fold_left visit (flat_map (top_seq false t) l) (mkSt R None D) =
   mkSt (mkTable (t_cls R) (t_syms R ++ map decl_sym (filter is_member l))
                 (t_uses R ++ flat_map uses_names (filter is_uses l))) None D.
 Proof.
@@ -146,11 +157,11 @@ Proof.
     destruct (is_member c), (is_uses c); cbn [map flat_map]; rewrite <- ?app_assoc, ?app_nil_r; reflexivity.
 Qed.
 
-Lemma silent_not_method c : silent c -> is_method c = false.
-Proof. unfold silent, is_method. intros ->. reflexivity. Qed.
+Lemma silent_not_method c : silent_top c -> is_method c = false.
+Proof. unfold silent_top, silent, is_method, dk. intros ->. reflexivity. Qed.
 
 (* the table of a method node *)
-Definition mtab (R : table) (m : node) : table := mkTable (t_cls R) (var_syms (below m)) (t_uses R).
+Definition mtab (t : node) (R : table) (m : node) : table := mkTable (t_cls R) (var_syms (below t m)) (t_uses R).
 
 Lemma end_method_root st : st_root (end_method st) = st_root st.
 Proof. unfold end_method. destruct (st_cur st); reflexivity. Qed.
@@ -159,21 +170,21 @@ Lemma end_method_cur st : st_cur (end_method st) = None.
 Proof. unfold end_method. destruct (st_cur st) eqn:E; [reflexivity|exact E]. Qed.
 
 Lemma visit_method st c : is_method c = true ->
-  visit st c =
+  visit st (top c) =
   let e := end_method st in
   mkSt (t_insert (st_root e) (decl_sym c)) (Some (mkTable (t_cls (st_root e)) [] (t_uses (st_root e)))) (st_done e).
 Proof.
-  unfold is_method, visit, decl_sym, member_kind. intro H.
+  unfold visit, decl_sym, member_kind. intro H.
   pose proof (end_method_cur st) as Hc. destruct (end_method st) as [R cu D]. cbn [st_cur] in Hc. subst cu.
-  destruct (dkind_of c) as [[]|]; try discriminate; reflexivity.
+  dk_cases c; try discriminate; reflexivity.
 Qed.
 
-Lemma phase_rest l : forall st, Forall rest_ok l ->
-  end_method (fold_left visit (flat_map (top_seq false) l) st) =
+Lemma phase_rest t l : forall st, Forall (rest_ok t) l ->
+  end_method (fold_left visit (flat_map (top_seq false t) l) st) =
   let e := end_method st in
   mkSt (mkTable (t_cls (st_root e)) (t_syms (st_root e) ++ map decl_sym (filter is_method l)) (t_uses (st_root e)))
        None
-       (st_done e ++ map (mtab (st_root e)) (filter is_method l)).
+       (st_done e ++ map (mtab t (st_root e)) (filter is_method l)).
 Proof.
   induction l as [|c l IH]; intros st H.
   - cbn [flat_map fold_left filter map]. cbv zeta. pose proof (end_method_cur st) as Hc.
@@ -182,13 +193,13 @@ Proof.
   - inversion H as [|? ? Hc Hl]; subst. rewrite flat_map_cons, fold_left_app. destruct Hc as [[Hs Hq]|[Hm Hv]].
     + rewrite top_quiet by exact Hq. rewrite visit_silent by exact Hs. rewrite IH by exact Hl.
       cbn [filter]. rewrite (silent_not_method c Hs). reflexivity.
-    + unfold top_seq. cbn [fold_left]. rewrite (visit_method st c Hm). cbv zeta.
+    + unfold top_seq. cbn [fold_left]. fold (top c). rewrite (visit_method st c Hm). cbv zeta.
       pose proof (end_method_cur st) as Hc. destruct (end_method st) as [[rc rs ru] cu D]. cbn [st_cur] in Hc. subst cu.
       cbn [st_root st_done t_cls t_uses t_insert t_syms].
       rewrite fold_vars' by exact Hv.
       cbn [st_root st_done t_cls t_syms t_uses app].
       rewrite IH by exact Hl. cbv zeta. cbn [end_method st_cur st_root st_done t_cls t_syms t_uses filter].
-      rewrite Hm. cbn [map]. unfold mtab, t_insert, below. cbn [t_cls t_syms t_uses app].
+      rewrite Hm. cbn [map]. unfold mtab, t_insert. cbn [t_cls t_syms t_uses app].
       rewrite <- !app_assoc. reflexivity.
 Qed.
 
@@ -196,59 +207,59 @@ Qed.
 (* the tables of a regular document, exactly                                              *)
 (* ====================================================================================== *)
 
-Definition header_asyms (h : node) : list asym := decl_syms h.
+Definition header_asyms (h : node) : list asym := decl_syms (top h).
 
 Lemma visit_header h : is_header h = true ->
-  visit init_state h = mkSt (mkTable (Some (nident h)) (header_asyms h) []) None [].
+  visit init_state (top h) = mkSt (mkTable (Some (nident h)) (header_asyms h) []) None [].
 Proof.
-  unfold is_header, visit, header_asyms, decl_syms, decl_sym, member_kind.
-  destruct (dkind_of h) as [[]|]; intro H; try discriminate; reflexivity.
+  unfold visit, header_asyms, decl_syms, decl_sym, member_kind. intro H.
+  dk_cases h; try discriminate; reflexivity.
 Qed.
 
-Lemma pre_no {f : node -> bool} l :
-  (forall c, silent c -> f c = false) -> Forall pre_ok l -> Forall (fun x => f x = false) l.
+Lemma pre_no {f : node -> bool} t l :
+  (forall c, silent_top c -> f c = false) -> Forall (pre_ok t) l -> Forall (fun x => f x = false) l.
 Proof. intros Hf H. eapply Forall_impl; [|exact H]. intros c [Hs _]. apply Hf. exact Hs. Qed.
 
-Lemma silent_not_member c : silent c -> is_member c = false.
-Proof. unfold silent, is_member. intros ->. reflexivity. Qed.
-Lemma silent_not_uses c : silent c -> is_uses c = false.
-Proof. unfold silent, is_uses. intros ->. reflexivity. Qed.
-Lemma silent_not_header c : silent c -> is_header c = false.
-Proof. unfold silent, is_header. intros ->. reflexivity. Qed.
+Lemma silent_not_member c : silent_top c -> is_member c = false.
+Proof. unfold silent_top, silent, is_member, dk. intros ->. reflexivity. Qed.
+Lemma silent_not_uses c : silent_top c -> is_uses c = false.
+Proof. unfold silent_top, silent, is_uses, dk. intros ->. reflexivity. Qed.
+Lemma silent_not_header c : silent_top c -> is_header c = false.
+Proof. unfold silent_top, silent, is_header, dk. intros ->. reflexivity. Qed.
 
 Lemma header_not c : is_header c = true -> is_member c = false /\ is_method c = false /\ is_uses c = false.
-Proof. unfold is_header, is_member, is_method, is_uses. destruct (dkind_of c) as [[]|]; intro; try discriminate; auto. Qed.
+Proof. intro H. dk_cases c; try discriminate; auto. Qed.
 
-Lemma mid_no_method l : Forall mid_ok l -> Forall (fun x => is_method x = false) l.
+Lemma mid_no_method t l : Forall (mid_ok t) l -> Forall (fun x => is_method x = false) l.
 Proof.
   intro H. eapply Forall_impl; [|exact H]. intros c [[Hs|[Hu|[_ Hm]]] _]; [apply silent_not_method; exact Hs| |exact Hm].
-  unfold is_uses in Hu. unfold is_method. destruct (dkind_of c) as [[]|]; try discriminate; reflexivity.
+  dk_cases c; try discriminate; reflexivity.
 Qed.
 
-Lemma rest_member_method l : Forall rest_ok l -> Forall (fun x => is_member x = is_method x) l.
+Lemma rest_member_method t l : Forall (rest_ok t) l -> Forall (fun x => is_member x = is_method x) l.
 Proof.
   intro H. eapply Forall_impl; [|exact H]. intros c [[Hs _]|[Hm _]].
   - rewrite silent_not_member, silent_not_method by exact Hs. reflexivity.
-  - rewrite Hm. unfold is_method in Hm. unfold is_member. destruct (dkind_of c) as [[]|]; try discriminate; reflexivity.
+  - dk_cases c; try discriminate; reflexivity.
 Qed.
 
-Lemma rest_no_uses l : Forall rest_ok l -> Forall (fun x => is_uses x = false) l.
+Lemma rest_no_uses t l : Forall (rest_ok t) l -> Forall (fun x => is_uses x = false) l.
 Proof.
   intro H. eapply Forall_impl; [|exact H]. intros c [[Hs _]|[Hm _]]; [apply silent_not_uses; exact Hs|].
-  unfold is_method in Hm. unfold is_uses. destruct (dkind_of c) as [[]|]; try discriminate; reflexivity.
+  dk_cases c; try discriminate; reflexivity.
 Qed.
 
 Definition reg_split (t : node) (pre : list node) (h : node) (mid rest : list node) : Prop :=
-  silent t /\ nchildren t = pre ++ h :: mid ++ rest /\
-  Forall pre_ok pre /\ is_header h = true /\ quiet h /\ Forall mid_ok mid /\ Forall rest_ok rest.
+  silent_top t /\ nchildren t = pre ++ h :: mid ++ rest /\
+  Forall (pre_ok t) pre /\ is_header h = true /\ quiet t h /\ Forall (mid_ok t) mid /\ Forall (rest_ok t) rest.
 
 Lemma reg_members t pre h mid rest : reg_split t pre h mid rest ->
   filter is_member (nchildren t) = filter is_member mid ++ filter is_method rest.
 Proof.
   intros (Ht & Hch & Hpre & Hh & Hhq & Hmid & Hrest).
   rewrite Hch, filter_app. cbn [filter]. destruct (header_not h Hh) as (E1 & _ & _). rewrite E1, filter_app.
-  rewrite (filter_none is_member pre) by (apply pre_no; [exact silent_not_member|exact Hpre]).
-  rewrite (filter_same is_member is_method rest) by (apply rest_member_method; exact Hrest). reflexivity.
+  rewrite (filter_none is_member pre) by (eapply pre_no; [exact silent_not_member|exact Hpre]).
+  rewrite (filter_same is_member is_method rest) by (eapply rest_member_method; exact Hrest). reflexivity.
 Qed.
 
 Lemma reg_methods t pre h mid rest : reg_split t pre h mid rest ->
@@ -256,8 +267,8 @@ Lemma reg_methods t pre h mid rest : reg_split t pre h mid rest ->
 Proof.
   intros (Ht & Hch & Hpre & Hh & Hhq & Hmid & Hrest).
   rewrite Hch, filter_app. cbn [filter]. destruct (header_not h Hh) as (_ & E2 & _). rewrite E2, filter_app.
-  rewrite (filter_none is_method pre) by (apply pre_no; [exact silent_not_method|exact Hpre]).
-  rewrite (filter_none is_method mid) by (apply mid_no_method; exact Hmid). reflexivity.
+  rewrite (filter_none is_method pre) by (eapply pre_no; [exact silent_not_method|exact Hpre]).
+  rewrite (filter_none is_method mid) by (eapply mid_no_method; exact Hmid). reflexivity.
 Qed.
 
 Lemma reg_uses t pre h mid rest : reg_split t pre h mid rest ->
@@ -265,14 +276,14 @@ Lemma reg_uses t pre h mid rest : reg_split t pre h mid rest ->
 Proof.
   intros (Ht & Hch & Hpre & Hh & Hhq & Hmid & Hrest).
   rewrite Hch, filter_app. cbn [filter]. destruct (header_not h Hh) as (_ & _ & E3). rewrite E3, filter_app.
-  rewrite (filter_none is_uses pre) by (apply pre_no; [exact silent_not_uses|exact Hpre]).
-  rewrite (filter_none is_uses rest) by (apply rest_no_uses; exact Hrest). rewrite app_nil_r. reflexivity.
+  rewrite (filter_none is_uses pre) by (eapply pre_no; [exact silent_not_uses|exact Hpre]).
+  rewrite (filter_none is_uses rest) by (eapply rest_no_uses; exact Hrest). rewrite app_nil_r. reflexivity.
 Qed.
 
 Lemma reg_header t pre h mid rest : reg_split t pre h mid rest -> find is_header (nchildren t) = Some h.
 Proof.
   intros (Ht & Hch & Hpre & Hh & _). rewrite Hch.
-  apply find_skip; [apply pre_no; [exact silent_not_header|exact Hpre]|exact Hh].
+  apply find_skip; [eapply pre_no; [exact silent_not_header|exact Hpre]|exact Hh].
 Qed.
 
 Definition reg_root (t h : node) : table :=
@@ -280,15 +291,15 @@ Definition reg_root (t h : node) : table :=
           (flat_map uses_names (filter is_uses (nchildren t))).
 
 Lemma annotate_regular_split t pre h mid rest : reg_split t pre h mid rest ->
-  annotate false t = mkSt (reg_root t h) None (map (mtab (reg_root t h)) (filter is_method (nchildren t))).
+  annotate false t = mkSt (reg_root t h) None (map (mtab t (reg_root t h)) (filter is_method (nchildren t))).
 Proof.
   intro HR. pose proof HR as (Ht & Hch & Hpre & Hh & Hhq & Hmid & Hrest).
   unfold reg_root. rewrite (reg_members _ _ _ _ _ HR), (reg_methods _ _ _ _ _ HR), (reg_uses _ _ _ _ _ HR).
   unfold annotate, visit_seq. cbn [fold_left]. rewrite visit_silent by exact Ht.
-  rewrite Hch, flat_map_app, fold_left_app. rewrite (phase_pre pre _ Hpre).
-  rewrite flat_map_cons, fold_left_app. rewrite (top_quiet _ h Hhq). rewrite (visit_header h Hh).
-  rewrite flat_map_app, fold_left_app. rewrite (phase_mid mid _ _ Hmid).
-  rewrite (phase_rest rest _ Hrest). cbv zeta.
+  rewrite Hch, flat_map_app, fold_left_app. rewrite (phase_pre t pre _ Hpre).
+  rewrite flat_map_cons, fold_left_app. rewrite (top_quiet _ t h Hhq). rewrite (visit_header h Hh).
+  rewrite flat_map_app, fold_left_app. rewrite (phase_mid t mid _ _ Hmid).
+  rewrite (phase_rest t rest _ Hrest). cbv zeta.
   cbn [end_method st_cur st_root st_done t_cls t_syms t_uses app].
   rewrite map_app, <- app_assoc. reflexivity.
 Qed.
@@ -300,8 +311,8 @@ Qed.
 Theorem annotate_regular t : regular t ->
   exists h, find is_header (nchildren t) = Some h /\
     let us := flat_map uses_names (filter is_uses (nchildren t)) in
-    let R := mkTable (Some (nident h)) (decl_syms h ++ map decl_sym (filter is_member (nchildren t))) us in
-    annotate false t = mkSt R None (map (mtab R) (filter is_method (nchildren t))).
+    let R := mkTable (Some (nident h)) (decl_syms (top h) ++ map decl_sym (filter is_member (nchildren t))) us in
+    annotate false t = mkSt R None (map (mtab t R) (filter is_method (nchildren t))).
 Proof.
   intros [Ht (pre & h & mid & rest & Hch & Hpre & Hh & Hhq & Hmid & Hrest)]. exists h.
   assert (HR : reg_split t pre h mid rest) by (unfold reg_split; tauto).
@@ -364,17 +375,23 @@ Fixpoint split_params (cs : list node) : list node * list node :=
       else match a with [] => ([], c :: b) | _ => (c :: a, b) end
   end.
 
-Definition param_nodes (m : node) : list node := filter var_like (post_list (fst (split_params (nchildren m)))).
-Definition local_nodes (m : node) : list node := filter var_like (post_list (snd (split_params (nchildren m)))).
+(* the declarations below the method m (a child of the root r) that insert a symbol, in walk order *)
+Definition walk_below (r m : node) (cs : list node) : list vnode :=
+  post_list (is_method_kind (nkind r)) (is_method_kind (nkind m)) cs.
+Definition param_nodes (r m : node) : list vnode := filter var_like (walk_below r m (fst (split_params (nchildren m)))).
+Definition local_nodes (r m : node) : list vnode := filter var_like (walk_below r m (snd (split_params (nchildren m)))).
 
-Definition method_of (m : node) (t : N) : method :=
-  mkMethod (nident m) (number var_of t (param_nodes m))
-           (number var_of (t + N.of_nat (length (param_nodes m))) (local_nodes m)).
+Definition pvar_of (p : vnode) (tag : N) : var := var_of (snd p) tag.
 
-Fixpoint methods_from (t : N) (ms : list node) : list method :=
+Definition method_of (r m : node) (t : N) : method :=
+  mkMethod (nident m) (number pvar_of t (param_nodes r m))
+           (number pvar_of (t + N.of_nat (length (param_nodes r m))) (local_nodes r m)).
+
+Fixpoint methods_from (r : node) (t : N) (ms : list node) : list method :=
   match ms with
   | [] => []
-  | m :: r => method_of m t :: methods_from (t + N.of_nat (length (param_nodes m)) + N.of_nat (length (local_nodes m))) r
+  | m :: l => method_of r m t ::
+              methods_from r (t + N.of_nat (length (param_nodes r m)) + N.of_nat (length (local_nodes r m))) l
   end.
 
 (* header = the first class / module child of the root (what DocumentService::parse_content takes
@@ -385,11 +402,11 @@ Definition entity_of_tree (t : node) : entity :=
   let h := find is_header cs in
   let mem := filter is_member cs in
   mkEntity (match h with Some x => nident x | None => [] end)
-           (match h with Some x => match dkind_of x with Some DModule => EModule | _ => EClass end | None => EClass end)
+           (match h with Some x => match dk x with Some DModule => EModule | _ => EClass end | None => EClass end)
            (match h with Some x => option_map tval (attr_tok K_parent x) | None => None end)
            (flat_map uses_names (filter is_uses cs))
            (number member_of 1 mem)
-           (methods_from (1 + N.of_nat (length mem)) (filter is_method cs)).
+           (methods_from t (1 + N.of_nat (length mem)) (filter is_method cs)).
 
 (* ====================================================================================== *)
 (* (a) the tables of Scoping are the tables built from the tree                           *)
@@ -408,18 +425,24 @@ Proof.
   induction l as [|n l IH]; intros t H; [reflexivity|]. inversion H as [|? ? Hn Hl]; subst.
   cbn [number map]. rewrite IH by exact Hl. f_equal.
   unfold sview, nview. rewrite skind_member. cbn [sym_of_member sid member_of m_name]. f_equal.
-  unfold kind_of_member, member_of, mkind_of, member_kind. cbn [m_kind]. unfold is_member in Hn.
-  destruct (dkind_of n) as [[]|]; try discriminate; reflexivity.
+  unfold kind_of_member, member_of, mkind_of, member_kind. cbn [m_kind].
+  dk_cases n; try discriminate; reflexivity.
 Qed.
 
+Definition pview (p : vnode) : str * skind := nview (snd p).
+
 Lemma sview_vars l : forall t, Forall (fun n => var_like n = true) l ->
-  map sview (map sym_of_var (number var_of t l)) = map nview l.
+  map sview (map sym_of_var (number pvar_of t l)) = map pview l.
 Proof.
   induction l as [|n l IH]; intros t H; [reflexivity|]. inversion H as [|? ? Hn Hl]; subst.
   cbn [number map]. rewrite IH by exact Hl. f_equal.
-  unfold sview, nview. rewrite skind_var. cbn [sym_of_var sid var_of v_name]. f_equal.
-  unfold member_kind. unfold var_like in Hn. destruct (dkind_of n) as [[]|]; try discriminate; reflexivity.
+  unfold sview, pview, nview. rewrite skind_var. cbn [sym_of_var sid pvar_of var_of v_name]. f_equal.
+  unfold member_kind. unfold var_like, dkind_at in Hn. destruct n as [g n]. cbn [fst snd] in *.
+  destruct (dkind_of n) as [[]|]; try discriminate; reflexivity.
 Qed.
+
+Lemma aview_vars l : map aview (map vsym l) = map pview l.
+Proof. rewrite map_map. reflexivity. Qed.
 
 Lemma filter_all {A} (f : A -> bool) l : Forall (fun x => f x = true) (filter f l).
 Proof. apply Forall_forall. intros x Hx. apply filter_In in Hx. tauto. Qed.
@@ -440,24 +463,24 @@ Proof.
 Qed.
 
 (* parameters followed by locals = every parameter / local declaration below the method in walk order *)
-Lemma params_locals m : param_nodes m ++ local_nodes m = filter var_like (below m).
+Lemma params_locals r m : param_nodes r m ++ local_nodes r m = filter var_like (below r m).
 Proof.
-  unfold param_nodes, local_nodes, below, post_list. rewrite <- filter_app, <- flat_map_app, split_params_app. reflexivity.
+  unfold param_nodes, local_nodes, walk_below, below, post_list. rewrite <- filter_app, <- flat_map_app, split_params_app. reflexivity.
 Qed.
 
-Lemma method_table_view e m t :
-  map sview (syms (method_table e (method_of m t))) = map nview (filter var_like (below m)).
+Lemma method_table_view e r m t :
+  map sview (syms (method_table e (method_of r m t))) = map pview (filter var_like (below r m)).
 Proof.
-  destruct (method_table_facts e (method_of m t)) as (H & _ & _). rewrite H. cbn [method_of me_params me_locals].
+  destruct (method_table_facts e (method_of r m t)) as (H & _ & _). rewrite H. cbn [method_of me_params me_locals].
   rewrite <- number_app, params_locals. apply sview_vars. apply filter_all.
 Qed.
 
 Lemma header_view e h : e_name e = nident h -> is_header h = true ->
-  e_kind e = match dkind_of h with Some DModule => EModule | _ => EClass end ->
-  map sview (header_syms e) = map aview (decl_syms h).
+  e_kind e = match dk h with Some DModule => EModule | _ => EClass end ->
+  map sview (header_syms e) = map aview (decl_syms (top h)).
 Proof.
-  intros Hn Hh Hk. unfold header_syms, decl_syms, decl_sym, member_kind, is_header in *. rewrite Hk, Hn.
-  destruct (dkind_of h) as [[]|]; try discriminate; reflexivity.
+  intros Hn Hh Hk. unfold header_syms, decl_syms, decl_sym, member_kind in *. rewrite Hk, Hn.
+  dk_cases h; try discriminate; reflexivity.
 Qed.
 
 (* what it means for a table of the annotator to BE a table of the scoping model: the same
@@ -465,8 +488,8 @@ Qed.
 Definition same_table (T : table) (s : scope) : Prop :=
   map aview (t_syms T) = map sview (syms s) /\ cls_str T = cls s.
 
-Lemma methods_Forall2 (P : table -> method -> Prop) (f : node -> table) l :
-  (forall m t, P (f m) (method_of m t)) -> forall t, Forall2 P (map f l) (methods_from t l).
+Lemma methods_Forall2 (P : table -> method -> Prop) (f : node -> table) r l :
+  (forall m t, P (f m) (method_of r m t)) -> forall t, Forall2 P (map f l) (methods_from r t l).
 Proof. intro H. induction l as [|m l IH]; intro t; cbn [map methods_from]; constructor; auto. Qed.
 
 Theorem tables_from_tree t : regular t ->
@@ -481,7 +504,7 @@ Proof.
   unfold root_table_of, method_tables_of. rewrite Ha. cbn [st_root st_done].
   set (e := entity_of_tree t).
   assert (En : e_name e = nident h) by (unfold e, entity_of_tree; cbn [e_name]; rewrite Hf; reflexivity).
-  assert (Ek : e_kind e = match dkind_of h with Some DModule => EModule | _ => EClass end)
+  assert (Ek : e_kind e = match dk h with Some DModule => EModule | _ => EClass end)
     by (unfold e, entity_of_tree; cbn [e_kind]; rewrite Hf; reflexivity).
   assert (Eu : e_uses e = flat_map uses_names (filter is_uses (nchildren t))) by reflexivity.
   split; [|split].
@@ -492,8 +515,8 @@ Proof.
   - cbn [t_uses]. symmetry. exact Eu.
   - unfold e at 3. unfold entity_of_tree. cbn [e_methods]. apply methods_Forall2. intros m tg.
     unfold mtab, same_table. cbn [t_syms t_cls t_uses cls_str]. split; [split|].
-    + rewrite method_table_view. unfold var_syms. apply aview_decl.
-    + destruct (method_table_facts e (method_of m tg)) as (_ & H2 & _). rewrite H2, En. reflexivity.
+    + rewrite method_table_view. unfold var_syms. apply aview_vars.
+    + destruct (method_table_facts e (method_of t m tg)) as (_ & H2 & _). rewrite H2, En. reflexivity.
     + symmetry. exact Eu.
 Qed.
 
@@ -533,10 +556,13 @@ Qed.
 Lemma cur_insert_cur_none st s : st_cur st = None -> st_cur (cur_insert st s) = None.
 Proof. destruct st as [R cu D]. cbn [st_cur]. intros ->. reflexivity. Qed.
 
+Lemma dkind_at_some p k : dkind_at p = Some k -> dkind_of (snd p) = Some k.
+Proof. unfold dkind_at. destruct (dkind_of (snd p)) as [[]|]; destruct (fst p); congruence. Qed.
+
 Lemma all_syms_visit st n : Permutation (all_syms (visit st n)) (all_syms st ++ decl_syms n).
 Proof.
-  unfold visit, decl_syms, decl_sym, member_kind.
-  destruct (dkind_of n) as [[]|];
+  unfold visit, decl_syms. cbv zeta.
+  destruct (dkind_at n) as [k|] eqn:E; [apply dkind_at_some in E; unfold decl_sym, member_kind; rewrite E; destruct k|];
     rewrite ?all_syms_cur_insert, ?all_syms_set_cls, ?all_syms_add_uses, ?app_nil_r, <- ?app_assoc; try apply Permutation_refl.
   - rewrite all_syms_new_scope by (apply cur_insert_cur_none, end_method_cur). rewrite all_syms_cur_insert.
     apply Permutation_app_tail. apply all_syms_end_method.
@@ -570,9 +596,9 @@ Qed.
 (* ... and in a regular document each table holds exactly its own declarations, in order *)
 Theorem annot_one_symbol_per_declaration t : regular t ->
   exists h, find is_header (nchildren t) = Some h /\
-    t_syms (root_table_of false t) = decl_syms h ++ map decl_sym (filter is_member (nchildren t)) /\
+    t_syms (root_table_of false t) = decl_syms (top h) ++ map decl_sym (filter is_member (nchildren t)) /\
     map t_syms (method_tables_of false t) =
-      map (fun m => map decl_sym (filter var_like (below m))) (filter is_method (nchildren t)).
+      map (fun m => map vsym (filter var_like (below t m))) (filter is_method (nchildren t)).
 Proof.
   intro Hreg. destruct (annotate_regular t Hreg) as (h & Hf & Ha). cbv zeta in Ha. exists h. split; [exact Hf|].
   unfold root_table_of, method_tables_of. rewrite Ha. cbn [st_root st_done t_syms]. split; [reflexivity|].
@@ -583,19 +609,19 @@ Qed.
 (* (b) the selection range is the declared name's range                                   *)
 (* ====================================================================================== *)
 
-Lemma in_post_sub P : forall n, Forall_nodes P n -> Forall P (post n).
+Lemma in_post_sub P : forall n gm pm, Forall_nodes P n -> Forall (fun p => P (snd p)) (post gm pm n).
 Proof.
-  fix IH 1. intros [k id raw rng at_ ch] H. apply Forall_nodes_unfold in H. destruct H as [H1 H2]. cbn [nchildren] in H2.
+  fix IH 1. intros [k id raw rng at_ ch] gm pm H. apply Forall_nodes_unfold in H. destruct H as [H1 H2]. cbn [nchildren] in H2.
   cbn [post]. apply Forall_app. split; [|constructor; [exact H1|constructor]].
   clear H1. induction ch as [|c ch IHc]; [constructor|]. inversion H2; subst. apply Forall_app. split; [apply IH; assumption|apply IHc; assumption].
 Qed.
 
-Lemma in_post_list P l : Forall (Forall_nodes P) l -> Forall P (post_list l).
+Lemma in_post_list P gm pm l : Forall (Forall_nodes P) l -> Forall (fun p => P (snd p)) (post_list gm pm l).
 Proof.
   induction 1 as [|c l Hc _ IH]; [constructor|]. unfold post_list. cbn [flat_map]. apply Forall_app. split; [apply in_post_sub; exact Hc|exact IH].
 Qed.
 
-Lemma visit_seq_sub P d t : Forall_nodes P t -> Forall P (visit_seq d t).
+Lemma visit_seq_sub P d t : Forall_nodes P t -> Forall (fun p => P (snd p)) (visit_seq d t).
 Proof.
   intro H. apply Forall_nodes_unfold in H. destruct H as [H1 H2]. unfold visit_seq. constructor; [exact H1|].
   induction H2 as [|c l Hc _ IH]; [constructor|]. cbn [flat_map]. apply Forall_app. split; [|exact IH].
@@ -604,31 +630,32 @@ Proof.
 Qed.
 
 (* a symbol and the node that declares it *)
-Definition declares (n : node) (s : asym) : Prop :=
-  In s (decl_syms n) /\
-  a_sel s = name_range n /\ a_range s = nrange n /\
-  (a_name s = nident n \/ (a_name s = s_self /\ dkind_of n = Some DClass)).
+Definition declares (p : vnode) (s : asym) : Prop :=
+  In s (decl_syms p) /\
+  a_sel s = name_range (snd p) /\ a_range s = nrange (snd p) /\
+  (a_name s = nident (snd p) \/ (a_name s = s_self /\ dkind_at p = Some DClass)).
 
 Lemma decl_syms_declares n s : In s (decl_syms n) -> declares n s.
 Proof.
   intro H. split; [exact H|]. unfold decl_syms, decl_sym, self_of, sym_of in H.
-  destruct (dkind_of n) as [[]|] eqn:E; cbn [In] in H;
+  destruct (dkind_at n) as [[]|] eqn:E; cbn [In] in H;
     repeat match goal with H : _ \/ _ |- _ => destruct H as [H|H] end; try contradiction; subst s;
     cbn [a_sel a_range a_name]; auto.
 Qed.
 
 (* the name token of a declaring node of a well-formed tree (C08: NodeWf) lies inside the node *)
-Lemma name_range_inside L n : NodeWf L n -> decl_syms n <> [] ->
-  inside (name_range n) (nrange n).
+Lemma name_range_inside L p : NodeWf L (snd p) -> decl_syms p <> [] ->
+  inside (name_range (snd p)) (nrange (snd p)).
 Proof.
-  intros (Hwf & Hl & [Hsel Hneed] & Hname) Hd. unfold decl_syms in Hd. unfold name_range.
+  destruct p as [g n]. cbn [snd].
+  intros (Hwf & Hl & [Hsel Hneed] & Hname) Hd. unfold decl_syms, dkind_at in Hd. cbn [fst snd] in Hd. unfold name_range.
   unfold dkind_of in *.
-  destruct (nkind n) eqn:Ek; try (exfalso; apply Hd; reflexivity);
+  destruct g; destruct (nkind n) eqn:Ek; try (exfalso; apply Hd; reflexivity);
   try (destruct (attr_tok K_ident n) as [tk|] eqn:Ea;
        [cbn [tok_range]; destruct (Hsel tk eq_refl) as (Hi & _); [intro Hc; discriminate|exact Hi]
        |exfalso; apply Hneed; reflexivity]).
-  - specialize (Hname (or_introl Ek)). destruct (nchildren n); [contradiction|exact Hname].
-  - specialize (Hname (or_intror Ek)). destruct (nchildren n); [contradiction|exact Hname].
+  all: try (specialize (Hname (or_introl Ek)); destruct (nchildren n); [contradiction|exact Hname]).
+  all: specialize (Hname (or_intror Ek)); destruct (nchildren n); [contradiction|exact Hname].
 Qed.
 
 Theorem annot_selection_is_declared_name d t T s :
@@ -651,13 +678,14 @@ Qed.
 (* by the correspondence check to count the regular documents among its cases            *)
 (* ====================================================================================== *)
 
-Definition silentb (n : node) : bool := match dkind_of n with None => true | Some _ => false end.
-Definition quietb (c : node) : bool := forallb silentb (below c).
-Definition pre_okb (c : node) : bool := silentb c && quietb c.
-Definition mid_okb (c : node) : bool :=
-  (silentb c || is_uses c || (is_member c && negb (is_method c))) && quietb c.
-Definition vosb (n : node) : bool := silentb n || var_like n.
-Definition rest_okb (c : node) : bool := (silentb c && quietb c) || (is_method c && forallb vosb (below c)).
+Definition silentb (p : vnode) : bool := match dkind_at p with None => true | Some _ => false end.
+Definition quietb (t c : node) : bool := forallb silentb (below t c).
+Definition pre_okb (t c : node) : bool := silentb (top c) && quietb t c.
+Definition mid_okb (t c : node) : bool :=
+  (silentb (top c) || is_uses c || (is_member c && negb (is_method c))) && quietb t c.
+Definition vosb (p : vnode) : bool := silentb p || var_like p.
+Definition rest_okb (t c : node) : bool :=
+  (silentb (top c) && quietb t c) || (is_method c && forallb vosb (below t c)).
 
 Fixpoint span {A} (f : A -> bool) (l : list A) : list A * list A :=
   match l with
@@ -666,10 +694,10 @@ Fixpoint span {A} (f : A -> bool) (l : list A) : list A * list A :=
   end.
 
 Definition regularb (t : node) : bool :=
-  silentb t &&
-  match span pre_okb (nchildren t) with
+  silentb (top t) &&
+  match span (pre_okb t) (nchildren t) with
   | (_, []) => false
-  | (_, h :: r) => is_header h && quietb h && forallb rest_okb (snd (span mid_okb r))
+  | (_, h :: r) => is_header h && quietb t h && forallb (rest_okb t) (snd (span (mid_okb t) r))
   end.
 
 Lemma span_app {A} (f : A -> bool) l : fst (span f l) ++ snd (span f l) = l.
@@ -685,17 +713,17 @@ Proof.
 Qed.
 
 Lemma silentb_ok n : silentb n = true -> silent n.
-Proof. unfold silentb, silent. destruct (dkind_of n); [discriminate|reflexivity]. Qed.
+Proof. unfold silentb, silent. destruct (dkind_at n); [discriminate|reflexivity]. Qed.
 
-Lemma quietb_ok c : quietb c = true -> quiet c.
+Lemma quietb_ok t c : quietb t c = true -> quiet t c.
 Proof.
   unfold quietb, quiet. intro H. rewrite forallb_forall in H. apply Forall_forall. intros x Hx. apply silentb_ok, H, Hx.
 Qed.
 
-Lemma pre_okb_ok c : pre_okb c = true -> pre_ok c.
+Lemma pre_okb_ok t c : pre_okb t c = true -> pre_ok t c.
 Proof. unfold pre_okb, pre_ok. intro H. apply andb_true_iff in H. destruct H. split; [apply silentb_ok|apply quietb_ok]; assumption. Qed.
 
-Lemma mid_okb_ok c : mid_okb c = true -> mid_ok c.
+Lemma mid_okb_ok t c : mid_okb t c = true -> mid_ok t c.
 Proof.
   unfold mid_okb, mid_ok. intro H. apply andb_true_iff in H. destruct H as [H1 H2]. split; [|apply quietb_ok; exact H2].
   apply orb_true_iff in H1. destruct H1 as [H1|H1]; [apply orb_true_iff in H1; destruct H1 as [H1|H1]|].
@@ -704,7 +732,7 @@ Proof.
   - right. right. apply andb_true_iff in H1. destruct H1 as [A B]. apply negb_true_iff in B. auto.
 Qed.
 
-Lemma rest_okb_ok c : rest_okb c = true -> rest_ok c.
+Lemma rest_okb_ok t c : rest_okb t c = true -> rest_ok t c.
 Proof.
   unfold rest_okb, rest_ok. intro H. apply orb_true_iff in H. destruct H as [H|H]; apply andb_true_iff in H; destruct H as [A B].
   - left. split; [apply silentb_ok|apply quietb_ok]; assumption.
@@ -715,11 +743,11 @@ Qed.
 Theorem regularb_ok t : regularb t = true -> regular t.
 Proof.
   unfold regularb. intro H. apply andb_true_iff in H. destruct H as [Hs H]. split; [apply silentb_ok; exact Hs|].
-  pose proof (span_app pre_okb (nchildren t)) as Happ. pose proof (span_fst pre_okb (nchildren t)) as Hpre.
-  destruct (span pre_okb (nchildren t)) as [pre [|h r]]; [discriminate|]. cbn [fst snd] in *.
+  pose proof (span_app (pre_okb t) (nchildren t)) as Happ. pose proof (span_fst (pre_okb t) (nchildren t)) as Hpre.
+  destruct (span (pre_okb t) (nchildren t)) as [pre [|h r]]; [discriminate|]. cbn [fst snd] in *.
   apply andb_true_iff in H. destruct H as [H Hrest]. apply andb_true_iff in H. destruct H as [Hh Hq].
-  pose proof (span_app mid_okb r) as Happ2. pose proof (span_fst mid_okb r) as Hmid.
-  destruct (span mid_okb r) as [mid rest]. cbn [fst snd] in *.
+  pose proof (span_app (mid_okb t) r) as Happ2. pose proof (span_fst (mid_okb t) r) as Hmid.
+  destruct (span (mid_okb t) r) as [mid rest]. cbn [fst snd] in *.
   exists pre, h, mid, rest. split; [rewrite Happ2; symmetry; exact Happ|].
   split; [eapply Forall_impl; [|exact Hpre]; intros a Ha; apply pre_okb_ok; exact Ha|].
   split; [exact Hh|]. split; [apply quietb_ok; exact Hq|].
